@@ -389,3 +389,4 @@ TECHNIQUE = ("Lean 4 proof over an executable fuel-bounded DFS model (order-inde
              "visited', neighbour-closure of the final visited set, pigeonhole bound for path length from acyclicity) + "
              "differential correspondence check against real bigtree (exhaustive DAGs <=4 nodes x construction orders, random "
              "DAGs to 10 nodes with up to 4 parents) + model-free graph-theoretic oracle (BFS reachability, DFS path enumeration)")
+RULE = RULE + ' Fifth session: one-off deep probe (spine of 300, neighbours sharing a child); go_to answers evaluated after all calls; one scratch list of the caller re-used for every parents / children assignment; dag_iterator consumed while another traversal is alive.'
